@@ -216,13 +216,18 @@ func (w *world) requestSeen(id string, d time.Duration) (request, bool) {
 }
 
 // barrier: a ping from the peer answered by the session.  Everything the peer
-// sent before it has then been processed by the serve loop.
-func (w *world) barrier(k int) bool {
+// sent before it has then been processed by the serve loop.  barrierSend
+// writes the ping, barrierWait waits for the answer.
+func (w *world) barrierSend(k int) string {
 	w.nextID++
 	id := fmt.Sprintf("bar%d", w.nextID)
 	w.log.add(event{Ev: "barrier", K: k})
 	w.send(fmt.Sprintf(`<iq type='get' id='%s' from='example.net' to='%s'><ping xmlns='urn:xmpp:ping'/></iq>`, id, libAddr))
-	rep := w.expect(func(n *xmltree.Node) bool { return n.Name.Local == "iq" && n.Attr("id") == id }, hardLimit)
+	return id
+}
+
+func (w *world) barrierWait(k int, id string, d time.Duration) bool {
+	rep := w.expect(func(n *xmltree.Node) bool { return n.Name.Local == "iq" && n.Attr("id") == id }, d)
 	if rep == nil {
 		return false
 	}
